@@ -95,7 +95,16 @@ Builtins ==
      << "path-recurse", TC1("last", TC1("path", TC2("limit", N, TC1("recurse", TId)))), TRUE >>,
      << "path-user", TDefs(D1("f", <<>>, TComma(TId, TC0("f"))), TC1("last", TC1("path", TC2("limit", N, TC0("f"))))), TRUE >>,
      << "path-user-pipe", TDefs(D1("f", <<>>, TComma(TId, TPipe(TId, TC0("f")))), TC1("last", TC1("path", TC2("limit", N, TC0("f"))))), TRUE >>,
-     << "paths-dotdot", TPipe(TArr(TC1("range", N)), TC1("last", TC1("path", TRec))), FALSE >> >>
+     << "paths-dotdot", TPipe(TArr(TC1("range", N)), TC1("last", TC1("path", TRec))), FALSE >>,
+     \* path mode with a counter in a variable argument, the tail call below bindings made since the definition
+     << "path-vararg", TC1("path", TDefs(D1("f", << PVv("a") >>, TIf(TBin(">", TVar("a"), TNum(0)), TC1("f", TBin("-", TVar("a"), TNum(1))), TId)), TC1("f", N))), TRUE >>,
+     << "path-vararg-as", TC1("path", TDefs(D1("f", << PVv("a") >>, TIf(TBin(">", TVar("a"), TNum(0)), TAs(TBin("-", TVar("a"), TNum(1)), "b", TC1("f", TVar("b"))), TId)), TC1("f", N))), TRUE >>,
+     << "run-vararg-as", TDefs(D1("f", << PVv("a") >>, TIf(TBin(">", TVar("a"), TNum(0)), TAs(TBin("-", TVar("a"), TNum(1)), "b", TC1("f", TVar("b"))), TVar("a"))), TC1("f", N)), TRUE >>,
+     \* the loop state is a container and the way to the tail call goes through constant path indices
+     << "state-array", TPipe(TArr(TNum(0)), TPipe(TDefs(D1("f", <<>>, TIf(TBin("<", TAt(TNum(0)), N), TPipe(TArr(TBin("+", TAt(TNum(0)), TNum(1))), TC0("f")), TId)), TC0("f")), TAt(TNum(0)))), TRUE >>,
+     << "state-object", TPipe(TObj(<< TE(TStr(<< 97 >>), TNum(0)) >>),
+                              TPipe(TDefs(D1("f", <<>>, TIf(TBin("<", TKey("a"), N), TPipe(TObj(<< TE(TStr(<< 97 >>), TBin("+", TKey("a"), TNum(1))) >>), TC0("f")), TId)), TC0("f")), TKey("a"))), TRUE >>,
+     << "state-array-as", TPipe(TArr(TNum(0)), TPipe(TDefs(D1("f", <<>>, TIf(TBin("<", TAt(TNum(0)), N), TAs(TAt(TNum(0)), "x", TPipe(TArr(TBin("+", TVar("x"), TNum(1))), TC0("f"))), TId)), TC0("f")), TAt(TNum(0)))), TRUE >> >>
 BuiltinCases == {Case("builtin/" \o Builtins[i][1], Builtins[i][2], Builtins[i][3], TRUE) : i \in 1..Len(Builtins)}
 
 AllCases == CASE Suite = "user" -> UserCases [] Suite = "wrap" -> WrapCases [] Suite = "control" -> ControlCases [] Suite = "builtin" -> BuiltinCases
